@@ -296,7 +296,7 @@ CHECKS['C10'] = [dict(harness='h_api', variant='asan', args=[], quick=2000, thor
                  dict(harness='h_file', variant='asan', args=['--mode', 'c12'], quick=40, thorough=1000, props=['C10'], name='asan-c12', env=C10_ENV),
                  dict(harness='h_file', variant='asan', args=['--mode', 'c13'], quick=40, thorough=1000, props=['C10'], name='asan-c13', env=C10_ENV),
                  dict(harness='h_file', variant='asan', args=['--mode', 'mix'], quick=40, thorough=1000, props=['C10'], name='asan-mix', env=C10_ENV)]
-CHECKS['C10'].append(dict(harness='h_api', variant='asan', args=['--hostile', '1'], quick=1200, thorough=1200, props=['C10'], name='api-hostile', env=C10_ENV))   # a FIXED set of CRC-consistent hostile files (own seed): same files in both tiers and for every VERIF_SEED
+CHECKS['C10'].append(dict(harness='h_api', variant='asan', args=['--hostile', '1'], quick=int(os.environ.get('VERIF_HOSTILE_N', '1200')), thorough=int(os.environ.get('VERIF_HOSTILE_N', '1200')), props=['C10'], name='api-hostile', env=C10_ENV))   # a FIXED set of CRC-consistent hostile files (own seed): same files in both tiers and for every VERIF_SEED
 CHECKS['C10'].append(twr_run('c06', 150, 6000, ['C10'], variant='asan', name='twr-c06-coop-asan', env=C10_ENV))   # the queue is the tail of one heap block: its last bytes are guarded by ASan only
 LEVELS['C10'] = 'exploration'
 RULES['C10'] = 'case = call sequence over the public API: a writer phase (sync or threaded; ids from {defined, 0, 255, 256, 300, 4095, 65535}, definition parameters from {0,1,9,10,255,65535..UINT32_MAX}, NULL/empty/UTF-8/70 KiB/1 MiB strings, lengths 0..70000, payloads up to 3 MiB) followed by 1-4 phases of reader calls on the written file or on a missing/non-JLS/truncated/bit-damaged file (windows negative/0/in range/one past/INT64_MAX, exact-size buffers, NULL callbacks), jls_copy, raw navigation at arbitrary offsets, statistics/crc. One AddressSanitizer+UBSan(bounds,null,div-by-zero,...) process per sequence with a CPU limit; LeakSanitizer is run once every handle is closed. The well-formed generators of C01/C09/C12/C13/mix are replayed under the same build (exact caller buffers). Violation key = (termination kind, sanitizer report kind, first frame in /repo/src, API call in flight). distinct = API functions reached + (function, error code) pairs observed. Hostile files (run api-hostile, a fixed set of 1200 sequences with its own seed - the same files for every VERIF_SEED and in both tiers, synchronous writer only): each sequence writes a file and works on 1-3 CRC-consistent alterations of it (1-3 edits: a header field - links, tag, chunk_meta, previous length - or a 1/2/4/8-byte payload field replaced by 0, 1, +-1, 2^31, 2^32-1, 2^63, the file size, another chunk\'s offset, ...; header and payload CRC recomputed; one in four also cut at a chunk boundary so that the repair runs) - what the raw API can write - followed by reader calls and jls_copy. On those files only sanitizer reports and signals decide; running into the CPU limit is counted inconclusive (a file may announce 2^56 samples of gap, which copy and repair walk faithfully); one case may write at most 1 GiB (RLIMIT_FSIZE)'
